@@ -311,4 +311,78 @@ PROPS = {
             "sim": "clock: testing/synctest; sequential request history",
         },
     },
+    "C13": {
+        "engine": "fltsim",
+        "instrument": "internal/filter/internal/refreshable=calls:renameio\\.|os\\.Chtimes|io\\.Copy|CloseAtomicallyReplace|tmpFile\\.Cleanup",
+        "modreplace": {"github.com/google/renameio/v2@v2.0.0": ".=calls:^t\\.Sync$|os\\.Rename|CloseAtomicallyReplace"},
+        "cfgs": ["", "single", "nofault"],
+        "quick": {"seconds": 45, "chunk": 400, "runs": 12000},
+        "thorough": {"seconds": 1200, "chunk": 1500},
+        "level": "exploration",
+        "rule": ("one run = real filter storage (1-3 rule lists from an index with a sprinkling of invalid entries, blocked-service "
+                 "index, three hash-prefix filters) downloading version r of every resource in round r = 1..5 from the simulated "
+                 "origin; per download a fault from {connection error, stall past the timeout, 404, 500, empty body, body over the "
+                 "size limit, body cut after k bytes, slow body in chunks}: sub-batch '' = random fault sequences (1 in 3 downloads), "
+                 "'single' = exactly one fault at a tape-chosen download of an otherwise clean history, 'nofault' = none; version r "
+                 "of a list consists of marker entries, so which version a component serves, and whether completely, is observable "
+                 "through verdicts; crash images of the cache directory at every body chunk and at the yields around temp-file write, "
+                 "sync, rename and chtimes, each restarted with the origin down; every run non-trivial; distinct = distinct decision hash"),
+        "assumptions": [
+            "crash images model a killed process (completed system calls survive); no torn or lost writes",
+            "safe-search lists are switched off in this world",
+            "expected versions after a round are written from the statement: a failed download keeps the previous complete version, other lists serve the previous or the new complete version, nothing is ever partial or mixed",
+        ],
+        "components": {
+            "real": ["internal/filter/filterstorage.Default (refresh, index handling, ForConfig)", "internal/filter/internal/rulelist, refreshable, serviceblock, custom, composite", "internal/filter/hashprefix (Storage, Matcher, Filter)", "AdguardTeam/urlfilter engine", "agdhttp client", "real cache files in a per-run scratch directory", "github.com/google/renameio/v2 (instrumented copy)"],
+            "stub": ["HTTP origin (simhttp installed as http.DefaultTransport: versioned resources, fault per download)", "clock (synctest)"],
+            "sim": REAL_COMMON,
+        },
+    },
+    "C11": {
+        "engine": "fltsim",
+        "instrument": "",
+        "cfgs": [""],
+        "quick": {"seconds": 30, "chunk": 800, "runs": 30000},
+        "thorough": {"seconds": 900, "chunk": 3000},
+        "rule": ("one run = three real hash-prefix filters whose lists (names over a 24-name universe with parents, children, "
+                 "public-suffix neighbours such as co.uk and blogspot.com, five- and six-label names; comments, blank lines, "
+                 "duplicates, CRLF) are reset 1-4 times through the simulated origin, some resets failing and keeping the previous "
+                 "list; between resets 3-25 queries: A/AAAA/HTTPS/MX/CNAME for names around every cut-off through the real handler "
+                 "stack, and TXT hash-prefix queries with 4- and 8-character prefixes, duplicates, upper case, bad lengths and "
+                 "non-hex; non-trivial = a listed host or a hash hit occurred; distinct = distinct decision hash"),
+        "assumptions": [
+            "the model reads 'up to four labels' as the last four labels of the name including the public suffix's own labels, minus the ICANN public suffix and everything above it",
+            "hashes are compared as sets (a name listed twice yields its hash twice)",
+        ],
+        "components": {
+            "real": ["internal/filter/filterstorage.Default (refresh, index handling, ForConfig)", "internal/filter/internal/rulelist, refreshable, serviceblock, custom, composite", "internal/filter/hashprefix (Storage, Matcher, Filter)", "AdguardTeam/urlfilter engine", "agdhttp client", "real cache files in a per-run scratch directory", "github.com/google/renameio/v2 (instrumented copy)"],
+            "stub": ["HTTP origin (simhttp installed as http.DefaultTransport: versioned resources, fault per download)", "clock (synctest)"],
+            "sim": REAL_COMMON,
+        },
+    },
+    "C12": {
+        "engine": "fltsim",
+        "instrument": "internal/filter/internal/rulelist=locks,calls:cache\\.(Get|Set|Clear);internal/filter/hashprefix=locks,calls:resCache\\.|hashes\\.(Matches|Reset);internal/filter/filterstorage=locks",
+        "cfgs": ["", "conc", "replip", "conc", "conc"],
+        "quick": {"seconds": 40, "chunk": 500, "runs": 16000},
+        "thorough": {"seconds": 1200, "chunk": 2000},
+        "rule": ("one run = storage A (all result caches on) and a stateless twin B (caches off or emptied before every request) "
+                 "loading the same list versions; 2-4 requesters with different blocking modes (null IP, custom IP, NXDOMAIN, "
+                 "REFUSED), filtered TTLs, rule-list subsets, custom rules, blocked services, safe-browsing/parental switches "
+                 "asking the same (host, qtype) keys in every order, interleaved with list refreshes that change verdicts and "
+                 "custom-rule updates; sub-batch 'replip' = hash-prefix filters answering with an IP address (response built with "
+                 "the requester's own message constructor); sub-batch 'conc' = a refresher task and 1-3 query tasks with yields "
+                 "before every lock and every result-cache get/set/clear inside rulelist, hashprefix and filterstorage; "
+                 "non-trivial = a request was filtered; distinct = distinct decision hash"),
+        "assumptions": [
+            "rule lists carry no client-specific modifiers ($client, $ctag), as the statement presumes",
+            "custom rules change together with a newer UpdateTime, as the backend sends them",
+            "in the concurrent sub-batch a request overlapping a refresh may see the old or the new version",
+        ],
+        "components": {
+            "real": ["internal/filter/filterstorage.Default (refresh, index handling, ForConfig)", "internal/filter/internal/rulelist, refreshable, serviceblock, custom, composite", "internal/filter/hashprefix (Storage, Matcher, Filter)", "AdguardTeam/urlfilter engine", "agdhttp client", "real cache files in a per-run scratch directory", "github.com/google/renameio/v2 (instrumented copy)"],
+            "stub": ["HTTP origin (simhttp installed as http.DefaultTransport: versioned resources, fault per download)", "clock (synctest)"],
+            "sim": REAL_COMMON,
+        },
+    },
 }
